@@ -105,6 +105,11 @@ const (
 	OpFpMul
 	OpFpDiv
 	OpFpRTZ     // roundToIntegral RTZ
+	OpFpRTN     // roundToIntegral RTN (floor)
+	OpFpRTP     // roundToIntegral RTP (ceil)
+	OpFpRNE     // roundToIntegral RNE (round half to even)
+	OpFpRNA     // roundToIntegral RNA (round half away from zero)
+	OpFpAbs
 	OpFpIsNaN   // Bool
 	OpFpFromSBV // to_fp signed bv64 (RNE)
 	OpFpFromUBV
@@ -612,6 +617,22 @@ func (b *TermBank) FpArith(op Op, x, y *Term) *Term {
 	}
 	return b.mk(op, SoFP64, 0, "", x, y)
 }
+func fpRoundConst(op Op, f float64) float64 {
+	switch op {
+	case OpFpRTN:
+		return math.Floor(f)
+	case OpFpRTP:
+		return math.Ceil(f)
+	case OpFpRNE:
+		return math.RoundToEven(f)
+	case OpFpRNA:
+		return math.Round(f)
+	case OpFpAbs:
+		return math.Abs(f)
+	}
+	panic("fpRoundConst")
+}
+
 func (b *TermBank) FpUn(op Op, x *Term) *Term {
 	switch op {
 	case OpFpIsNaN:
@@ -627,6 +648,11 @@ func (b *TermBank) FpUn(op Op, x *Term) *Term {
 	case OpFpRTZ:
 		if x.op == OpConst {
 			return b.FpConst(math.Trunc(math.Float64frombits(x.c)))
+		}
+		return b.mk(op, SoFP64, 0, "", x)
+	case OpFpRTN, OpFpRTP, OpFpRNE, OpFpRNA, OpFpAbs:
+		if x.op == OpConst {
+			return b.FpConst(fpRoundConst(op, math.Float64frombits(x.c)))
 		}
 		return b.mk(op, SoFP64, 0, "", x)
 	case OpFpToSBV, OpFpToUBV:
@@ -692,6 +718,16 @@ func (t *Term) body() string {
 		return "(fp.div RNE " + a(0) + " " + a(1) + ")"
 	case OpFpRTZ:
 		return "(fp.roundToIntegral RTZ " + a(0) + ")"
+	case OpFpRTN:
+		return "(fp.roundToIntegral RTN " + a(0) + ")"
+	case OpFpRTP:
+		return "(fp.roundToIntegral RTP " + a(0) + ")"
+	case OpFpRNE:
+		return "(fp.roundToIntegral RNE " + a(0) + ")"
+	case OpFpRNA:
+		return "(fp.roundToIntegral RNA " + a(0) + ")"
+	case OpFpAbs:
+		return "(fp.abs " + a(0) + ")"
 	case OpFpFromSBV:
 		return "((_ to_fp 11 53) RNE " + a(0) + ")"
 	case OpFpFromUBV:
@@ -781,6 +817,8 @@ func (m Model) eval(t *Term, memo map[*Term]uint64) uint64 {
 		r = math.Float64bits(fl(0) * fl(1))
 	case OpFpDiv:
 		r = math.Float64bits(fl(0) / fl(1))
+	case OpFpRTN, OpFpRTP, OpFpRNE, OpFpRNA, OpFpAbs:
+		r = math.Float64bits(fpRoundConst(t.op, fl(0)))
 	case OpFpRTZ:
 		r = math.Float64bits(math.Trunc(fl(0)))
 	case OpFpIsNaN:
